@@ -169,6 +169,23 @@ def extract() -> dict[str, int]:
     order = [type(x).__name__ for x in whiles[0].body[-5:]]
     if order != ["If", "Assign", "Assign", "AugAssign", "If"]:
         raise Unsupported(f"accept_loop: tail of the loop body changed: {order}")
+    # --- update.sort_messages_preserving_file_order: shape of the two index loops (no numeric bound; the model is hand-written)
+    sp = _func(up, "sort_messages_preserving_file_order")
+    wl = [n for n in ast.walk(sp) if isinstance(n, ast.While)]
+    tests = sorted(ast.unparse(w.test) for w in wl)
+    want = sorted(["i < len(messages)",
+                   "i + 1 < len(messages) and extract_possible_fnam_from_message(messages[i + 1]) not in order and "
+                   "(extract_fnam_from_message(messages[i + 1]) is None) and (not messages[i + 1].startswith('mypy: '))"])
+    if tests != want:
+        raise Unsupported(f"sort_messages_preserving_file_order: loop conditions changed: {tests}")
+    subs = sorted(ast.unparse(n) for n in ast.walk(sp) if isinstance(n, ast.Subscript) and ast.unparse(n.value) == "messages")
+    if subs != ["messages[i + 1]"] * 3 + ["messages[i]"] * 2:
+        raise Unsupported(f"sort_messages_preserving_file_order: subscriptions of `messages` changed: {subs}")
+    incs = [n for n in ast.walk(sp) if isinstance(n, ast.AugAssign) and ast.unparse(n.target) == "i"]
+    if len(incs) != 2 or any(ast.unparse(n.value) != "1" or not isinstance(n.op, ast.Add) for n in incs):
+        raise Unsupported("sort_messages_preserving_file_order: `i += 1` must occur exactly twice")
+    if "groups.append((order.get(maybe_fnam, n), group))" not in ast.unparse(sp) or "sorted(groups, key=lambda g: g[0])" not in ast.unparse(sp):
+        raise Unsupported("sort_messages_preserving_file_order: group key / sort changed")
     for k in ("ACCEPT_LOOP_CAP", "ACCEPT_LOOP_FRAME_ITERS", "ACCEPT_LOOP_WIDEN_ITERS"):
         if not 0 <= out[k] <= 5000:
             raise Unsupported(f"{k} out of range")
